@@ -28,6 +28,13 @@ def text_ops(rng, sc, density=0.35, kinds=None, max_ord=80):
     acts = []
     if not kinds:
         return acts
+    if 'MORE' in kinds and rng.random() < 0.15:
+        # a run of consecutive yymore() calls: yytext grows over many tokens
+        start = rng.randint(0, 20)
+        for o in range(start, start + rng.choice([3, 5, 9, 20, 60])):
+            acts.append((o, Op('MORE')))
+        acts.sort(key=lambda x: x[0])
+        return acts
     for o in range(max_ord):
         if rng.random() >= density:
             continue
